@@ -11,6 +11,7 @@ pub mod c09;
 pub mod c11;
 pub mod c12;
 pub mod c13;
+pub mod c14;
 pub mod c15;
 pub mod c16;
 pub mod c17;
@@ -31,6 +32,7 @@ pub fn dispatch(ctx: &Ctx, rep: &mut Report) -> bool {
         "C11" => c11::run(ctx, rep),
         "C12" => c12::run(ctx, rep),
         "C13" => c13::run(ctx, rep),
+        "C14" => c14::run(ctx, rep),
         "C15" => c15::run(ctx, rep),
         "C16" => c16::run(ctx, rep),
         "C17" => c17::run(ctx, rep),
